@@ -18,6 +18,10 @@
             // rows that leave a ray open and do not all involve the ray variable
             vec![(vec![0.0, 1.0], Comparison::LessOrEqual, 3.0), (vec![1.0, -1.0], Comparison::GreaterOrEqual, -2.0)],
             vec![(vec![0.0, 1.0], Comparison::LessOrEqual, 2.0), (vec![0.0, 1.0], Comparison::GreaterOrEqual, -2.0), (vec![1.0, 0.0], Comparison::LessOrEqual, 3.5), (vec![1.0, 0.0], Comparison::GreaterOrEqual, -0.000001)],
+            // direct start (no phase one) from a singleton STRUCTURAL column whose entry is not 1 and whose cost is not 0: the row has to be
+            // scaled before the reduced costs are taken (seed C14 of round 14 computed them from the unscaled row)
+            vec![(vec![2.0, 1.0], Comparison::Equal, 4.0), (vec![0.0, 1.0], Comparison::LessOrEqual, 3.0)],
+            vec![(vec![1.0, 4.0], Comparison::Equal, 6.0), (vec![1.0, 0.0], Comparison::LessOrEqual, 3.0)],
         ];
         let objs = [vec![1.0, 2.0], vec![-1.0, 1.0], vec![1.0, 0.0], vec![0.0, -3.0]];
         let mut cases = 0u64;
